@@ -16,7 +16,7 @@ Open Scope Z_scope.
 
 Inductive aop :=
   | AAdd | ASub | AMul | ADiv | AFma | ASqrt | ANeg | AFabs | ACopysign | AFdim
-  | AFloor | ACeil | ATrunc | ARoundint | AFmod | ARemainder | AMod.
+  | AFloor | ACeil | ATrunc | ARoundint | AFmod | ARemainder | AMod | ANearbyint.
 
 (* exact values: a Float, or a non-dyadic rational (-1)^s * num/den, num, den > 0 *)
 Inductive xv := XFl (x : fl) | XQ (s : bool) (num den : Z).
@@ -203,16 +203,19 @@ Definition exact_op (op : aop) (cx : ctx) (args : list fl) : result xv :=
   | _, _ => Err TypeErr
   end.
 
-(* one rounding of an exact value; under REAL a rational stays a rational *)
-Definition round_xv (c : ctx) (v : xv) : result (xv * flags) :=
+(* one rounding of an exact value; under REAL a rational stays a rational;
+   rb = the integer drawn by a stochastic context (ignored otherwise) *)
+Definition round_xv_rb (c : ctx) (v : xv) (rb : Z) : result (xv * flags) :=
   match v with
-  | XFl x => bind (ctx_round0 c x) (fun r => Ok (XFl (fst r), snd r))
+  | XFl x => bind (ctx_round c x None rb) (fun r => Ok (XFl (fst r), snd r))
   | XQ s n d =>
       match c with
       | CReal => Ok (XQ s n d, no_flags)
-      | _ => bind (ctx_round0 c (FFin (rto_of_q c s n d))) (fun r => Ok (XFl (fst r), snd r))
+      | _ => bind (ctx_round c (FFin (rto_of_q c s n d)) None rb) (fun r => Ok (XFl (fst r), snd r))
       end
   end.
+
+Definition round_xv (c : ctx) (v : xv) : result (xv * flags) := round_xv_rb c v 0.
 
 Definition is_rint (op : aop) : bool :=
   match op with AFloor | ACeil | ATrunc | ARoundint => true | _ => false end.
@@ -220,9 +223,14 @@ Definition is_rint (op : aop) : bool :=
 Definition set_inexact (f : flags) : flags :=
   FL (f_invalid f) (f_divzero f) (f_overflow f) (f_tiny_pre f) (f_tiny_post f) true (f_carry f).
 
-Definition arith (op : aop) (c : ctx) (args : list fl) : result (xv * flags) :=
+Definition arith_rb (op : aop) (c : ctx) (args : list fl) (rb : Z) : result (xv * flags) :=
+  match op, args with
+  | ANearbyint, [x] =>
+      (* ops.nearbyint = Context.round_integer: ONE rounding, at the integer position, by the context's own mode *)
+      bind (ctx_round c x (Some (-1)) rb) (fun r => Ok (XFl (fst r), snd r))
+  | _, _ =>
   bind (exact_op op c args) (fun v =>
-    bind (round_xv c v) (fun r =>
+    bind (round_xv_rb c v rb) (fun r =>
       (* ops.ceil/floor/trunc/roundint: inexact iff the finite result differs from the operand *)
       match is_rint op, args, fst r with
       | true, [x], XFl (FFin y) =>
@@ -231,4 +239,7 @@ Definition arith (op : aop) (c : ctx) (args : list fl) : result (xv * flags) :=
           | _ => Ok (fst r, set_inexact (snd r))
           end
       | _, _, _ => Ok r
-      end)).
+      end))
+  end.
+
+Definition arith (op : aop) (c : ctx) (args : list fl) : result (xv * flags) := arith_rb op c args 0.
